@@ -1,1 +1,60 @@
-From Qib Require Import TN.TNCheck.
+(** C07 - network contraction is independent of strategy and equals the defining sum.
+    Property theorems only (proofs: Qib.TN.TNSum, TNEinsum, TNEinsumSpec, TNTreeCheck).
+    The model (Qib.TN.TNValue, TNTree) is a hand port of as_einsum / contract_einsum /
+    to_full_tensor / _build_contraction_tree / contract_tree / permute_axes /
+    perform_tree_contraction, with numpy.einsum modelled by its defining sum [einsum_sem];
+    it is tied to /repo by the exact correspondence run of checks/C07.py on every run. *)
+From Qib Require Import TN.TNEinsumSpec Base.Inst.
+
+(** (a) single-shot contraction.  For every network satisfying the incidence invariant, every
+    commutative ring of scalars and all tensor data: if contract_einsum (through the functional
+    form of as_einsum) returns (tensor, axes_map), its expansion by to_full_tensor has the
+    logical shape the network reports and equals the defining sum
+        T[x] = sum over all bond indices of  prod_t data_t[indices of t's bonds] * prod_k [x_k = index of open axis k's bond].
+    Hyper-bonds, multi-edges, self-traces, shared open bonds and identity wires are all covered
+    (no hypothesis on the topology). *)
+Theorem C07_einsum_is_defining_sum_partial :
+  forall (K : Scalar) (L : ScalarLaws K) (n : net) (data : Z -> list nat -> K) E v am,
+    WF n -> as_einsum_spec n = Some E -> contract_with E n data = Some (v, am) ->
+    exists shp, shape n = Some shp /\ am = e_amap E /\
+      fst (to_full_tensor v am) = shp /\
+      forall x, in_range shp x -> snd (to_full_tensor v am) x = defining_sum n data x.
+Proof. intros K L n data E v am W HE HC. exact (as_einsum_spec_correct n data W E v am HE HC). Qed.
+Print Assumptions C07_einsum_is_defining_sum_partial.
+(* Full statement: the same with [as_einsum n] (the literal port of the unification +
+   condensation loops) in place of [as_einsum_spec n].  Missing: the universal lemma
+   WF n -> as_einsum n = as_einsum_spec n; it is evaluated by vm_compute on every network of
+   the correspondence run (TNCheck.check, case CEin). *)
+
+(** the labelling theorem behind it: any injective labelling of the bonds will do *)
+Theorem C07_any_injective_labelling :
+  forall (K : Scalar) (L : ScalarLaws K) (n : net) (data : Z -> list nat -> K) (lab : Z -> nat) ts vt E v am,
+    WF n ->
+    (forall b b', In b (dkeys (bonds n)) -> In b' (dkeys (bonds n)) -> lab b = lab b' -> b = b') ->
+    Permutation.Permutation ts (real_tensors n) -> dget VT (tensors n) = Some vt ->
+    omap (fun tid => dget tid (tensors n)) (e_tids E) = Some ts ->
+    e_tidx E = map (fun t => map lab (t_bids t)) ts ->
+    e_out E = first_occ (map lab (t_bids vt)) [] ->
+    omap (fun i => nindex i (e_out E)) (map lab (t_bids vt)) = Some (e_amap E) ->
+    contract_with E n data = Some (v, am) ->
+    am = e_amap E /\ fst (to_full_tensor v am) = t_shape vt /\
+    forall x, in_range (t_shape vt) x -> snd (to_full_tensor v am) x = defining_sum n data x.
+Proof.
+  intros K L n data lab ts vt E v am W LI P Hvt H1 H2 H3 H4 HC.
+  exact (contract_with_correct n data W lab LI ts vt E P Hvt H1 H2 H3 H4 v am HC).
+Qed.
+Print Assumptions C07_any_injective_labelling.
+
+(** the hypotheses are satisfiable: hyper-bond with three legs + two open axes on one bond + a
+    self-trace + an identity wire; the model contracts it and the expansion is the defining sum
+    (here evaluated on Gaussian-integer data) *)
+Definition ex_net : net :=
+  mkN [(2%Z, mkT 2%Z [2; 2; 3; 3]%nat [4; 4; 7; 7]%Z 0%Z); ((-1)%Z, mkT (-1)%Z [2; 2; 2; 2]%nat [4; 9; 4; 9]%Z (-1)%Z);
+       (5%Z, mkT 5%Z [2]%nat [4]%Z 1%Z)]
+      [(4, mkB 4 [-1; -1; 2; 2; 5]); (7, mkB 7 [2; 2]); (9, mkB 9 [-1; -1])]%Z.
+Example C07_example :
+  wf_b ex_net = true /\
+  exists E v, as_einsum_spec ex_net = Some E /\ as_einsum ex_net = Some E /\
+    contract_with (K:=ZI) E ex_net (fun r idx => (Z.of_nat (1 + length idx + 2 * nth 0 idx O), 1%Z)) = Some (v, e_amap E) /\
+    e_amap E = [0; 1; 0; 1]%nat.
+Proof. split; [vm_compute; reflexivity|]. eexists. eexists. vm_compute. repeat split. Qed.
